@@ -5,6 +5,7 @@ import (
 	"bytes"
 	"encoding/binary"
 	"encoding/json"
+	"errors"
 	"fmt"
 	"hash"
 	"io"
@@ -60,7 +61,14 @@ type splitReader struct {
 	sizes       []int
 	k           int
 	eofWithData bool // the final piece is returned together with io.EOF (legal for an io.Reader)
+	softErr     int  // > 0: every softErr-th read that delivers all the bytes asked for also reports a temporary error
+	full        int
 }
+
+// errSoft: a temporary condition reported together with the data (a deadline that ran out while the bytes were already
+// there); the io.Reader contract tells callers to use the n bytes first, and io.ReadFull drops the error of a read that
+// filled the buffer
+var errSoft = errors.New("temporary condition reported with the data")
 
 func (s *splitReader) Read(p []byte) (int, error) {
 	if len(s.data) == 0 {
@@ -79,6 +87,11 @@ func (s *splitReader) Read(p []byte) (int, error) {
 	if len(s.data) == 0 && s.eofWithData {
 		return n, io.EOF
 	}
+	if s.softErr > 0 && n == len(p) && n > 0 {
+		if s.full++; s.full%s.softErr == 0 {
+			return n, errSoft
+		}
+	}
 	return n, nil
 }
 
@@ -89,7 +102,10 @@ func loadAllSplit(data []byte, sizes []int, buffered int) (how string) {
 			how = "panic"
 		}
 	}()
-	var src io.Reader = &splitReader{data: data, sizes: sizes, eofWithData: buffered < 0}
+	var src io.Reader = &splitReader{data: data, sizes: sizes, eofWithData: buffered == -1}
+	if buffered < -1 {
+		src.(*splitReader).softErr = -buffered
+	}
 	if buffered > 0 {
 		src = bufio.NewReaderSize(src, buffered)
 	}
@@ -191,7 +207,7 @@ func c11rdbChild(raw json.RawMessage, scratch string) {
 					name  string
 					sizes []int
 					buf   int
-				}{{"1-byte", []int{1}, 0}, {"1,2,3,7", []int{1, 2, 3, 7}, 0}, {"halves", []int{(len(data) + 1) / 2}, 0}, {"bufio16-over-5", []int{5}, 16}, {"bufio64-over-1,100", []int{1, 100}, 64}, {"last-bytes-with-EOF", []int{7, 64}, -1}, {"whole-file-with-EOF", []int{1 << 20}, -1}} {
+				}{{"1-byte", []int{1}, 0}, {"1,2,3,7", []int{1, 2, 3, 7}, 0}, {"halves", []int{(len(data) + 1) / 2}, 0}, {"bufio16-over-5", []int{5}, 16}, {"bufio64-over-1,100", []int{1, 100}, 64}, {"last-bytes-with-EOF", []int{7, 64}, -1}, {"whole-file-with-EOF", []int{1 << 20}, -1}, {"every-3rd-complete-read-with-a-temporary-error", []int{1 << 20}, -3}, {"every-2nd-complete-read-with-a-temporary-error", []int{4, 9}, -2}} {
 					r.Count("rdb_intact_split_deliveries", 1)
 					if how := loadAllSplit(data, sh.sizes, sh.buf); how != "" {
 						r.Violationf("C11|rdb|outcome=intact-rejected-when-split|delivery="+sh.name, cs, "intact RDB (version %d, %d bytes) delivered in pieces (%s) rejected at %s", f.Version, len(data), sh.name, how)
